@@ -28,6 +28,12 @@ func genType(c *core.Ctx, idx int, tweak func(*gen.TG)) *tcase {
 	cfg := cfgs[idx%len(cfgs)]
 	r := c.RandFor(idx, "type")
 	tg := &gen.TG{R: r, C: cfg, Lib: true, Skipped: true, JSONTags: true}
+	if idx%13 == 5 {
+		// an instance on which time.Time itself has the BigQuery timestamp codec (a codec that embeds one
+		// of the library's scalar codecs and overrides part of it), so that it is the element codec of
+		// []time.Time and the value codec of maps, which carry no tag option (round 11: q02)
+		tg.C.Plain = map[reflect.Type]model.Special{model.TimeT: model.SpBQTime}
+	}
 	if tweak != nil {
 		tweak(tg)
 	}
